@@ -36,7 +36,7 @@ for mid in ids:
         print(mid, 'retired:', meta['retired'][:150])
         results[mid] = {'retired': meta['retired']}
         continue
-    todo = checks or [meta['breaks_property']]
+    todo = checks or ([meta['breaks_property']] + meta.get('cross_checks', []))
     d = tempfile.mkdtemp(prefix='mut.', dir='/tmp')
     try:
         subprocess.run('git -C /repo archive HEAD | tar -x -C %s' % d, shell=True, check=True)
